@@ -156,4 +156,14 @@ def main(tier):
     chk.extra["pair_kernels"] = kernels
     chk.floor("C12-kernels", kernels, 8)
     chk.floor("C12", n, 40)
+    # C12p: the parameters of the calculation (lag, tolerances, bench, cylinder radius, codes ...) reach the direction definition
+    # they are given for: no exchange of two same-named quantities in the forwarding factories
+    import argswap
+    pun = [os.path.join(REPO, "src/Variogram", x) for x in ("VarioParam.cpp", "DirParam.cpp") if os.path.exists(os.path.join(REPO, "src/Variogram", x))]
+    pprog = Program().load_dir(extract(pun, "C12p-" + tier)) if tier != "thorough" else prog
+    if tier != "thorough":
+        dh, excluded = facts.extract_headers("C12h-" + tier)
+        pprog.load_dir(dh)
+        chk.units += [u for u in pprog.units if u not in chk.units]
+    argswap.rule(pprog, chk, "C12p", file_filter=("src/Variogram/",), floor_n=4)
     return chk.finish()
